@@ -232,7 +232,9 @@ def sort_by_dimensionality(
             if cname_dim in dim_order:
                 return dim_order.index(cname_dim), cname
 
-        raise KeyError(f"Unit {unit_name} (aka {cname}) has no recognized dimensions")
+        # Dimensions that are not listed in dim_order (e.g. [printing_unit],
+        # [information] or user defined ones) go after the listed ones.
+        return len(dim_order), cname
 
     return sorted(items, key=sort_key)
 
